@@ -59,8 +59,8 @@ CLAIMED = {
  "C20": dict(cat="proof", technique="symbolic execution of the time-step wrappers; Euler operator A extracted from the Euler kernel and composed (A, A^2, A^3); equality of normal forms",
              text="Euler kernels equal field + step*flux(field) with the library's own flux kernels and the unscaled step; SSP-RK3 summary equals (I + A + A^2/2 + A^3/6) omega with A the extracted Euler operator for the same step.",
              note="deep-interior cells (ring handling is C13/C18); trusted A1, A2, A7", ref="5 C20"),
- "C13": dict(cat="other", technique="abstract interpretation of generators -> op trace; symbolic store execution; normal-form equality with documented closed forms; region algebra with asymptotic bound ordering",
-             text="For every public grid-kernel generator and option combination the resolved summary of the returned callable (wrapper plumbing inlined, arbitrary array contents, symbolic grid sizes) equals the documented closed form on the documented region, the ring/zone is as documented, and no other argument is written. Decides the property up to pystencils' own semantics.",
+ "C13": dict(cat="other", technique="abstract interpretation of generators -> op trace; symbolic store execution; normal-form equality with documented closed forms; region algebra with asymptotic bound ordering; second call on the same generated object compared by effect trace, re-summarised when it differs",
+             text="For every public grid-kernel generator and option combination the resolved summary of the returned callable (wrapper plumbing inlined, arbitrary array contents, symbolic grid sizes) equals the documented closed form on the documented region, the ring/zone is as documented, and no other argument is written; a second call on the same generated kernel does the same (C13.h). Decides the property up to pystencils' own semantics.",
              note="trusted: A1 pystencils 1.x iteration-space rule, A2 exact literals, A3 numpy slicing/broadcast, A7 the analyser, A8 distinct arguments; strided-view behaviour is pystencils'", ref="5 C13"),
 }
 NA = {
